@@ -746,7 +746,14 @@ class BaseWorkflow(object, metaclass=abc.ABCMeta):
                 self.task_list,
             )
         )
-        for task in working_and_zero_task_set:
+        # A task whose FF input finishes in this same step can finish too. Visit the candidates
+        # once per candidate so that the result does not depend on the iteration order of the set.
+        candidate_task_list = list(working_and_zero_task_set) * len(
+            working_and_zero_task_set
+        )
+        for task in candidate_task_list:
+            if task.state != BaseTaskState.WORKING:
+                continue  # already finished in an earlier pass
             # check FINISH condition by each dependency
             # SF: if input task is working
             # FF: if input task is finished
